@@ -187,26 +187,23 @@ func UnmarshalAttribute(attr *api.Attribute) (bgp.PathAttributeInterface, error)
 					}
 				case *api.TunnelEncapTLV_TLV_SrSegmentList:
 					var err error
-					weight := uint32(0)
-					flags := uint8(0)
-					if sv.SrSegmentList.Weight != nil {
-						weight = sv.SrSegmentList.Weight.Weight
-						flags = uint8(sv.SrSegmentList.Weight.Flags)
-					}
 					s := &bgp.TunnelEncapSubTLVSRSegmentList{
 						TunnelEncapSubTLV: bgp.TunnelEncapSubTLV{
-							Type:   bgp.ENCAP_SUBTLV_TYPE_SRSEGMENT_LIST,
-							Length: uint16(6), // Weight (6 bytes) + length of segment (added later, after all segments are discovered)
+							Type: bgp.ENCAP_SUBTLV_TYPE_SRSEGMENT_LIST,
 						},
-						Weight: &bgp.SegmentListWeight{
+						Segments: make([]bgp.TunnelEncapSubTLVInterface, 0),
+					}
+					// The Weight sub-TLV is optional: build it only when the API value has one.
+					if w := sv.SrSegmentList.Weight; w != nil {
+						s.Length = uint16(6) // Weight (6 bytes) + length of segment (added later, after all segments are discovered)
+						s.Weight = &bgp.SegmentListWeight{
 							TunnelEncapSubTLV: bgp.TunnelEncapSubTLV{
 								Type:   bgp.SegmentListSubTLVWeight,
 								Length: uint16(6),
 							},
-							Flags:  flags,
-							Weight: weight,
-						},
-						Segments: make([]bgp.TunnelEncapSubTLVInterface, 0),
+							Flags:  uint8(w.Flags),
+							Weight: w.Weight,
+						}
 					}
 					if len(sv.SrSegmentList.Segments) != 0 {
 						s.Segments, err = UnmarshalSRSegments(sv.SrSegmentList.Segments)
@@ -2802,12 +2799,17 @@ func NewTunnelEncapAttributeFromNative(a *bgp.PathAttributeTunnelEncap) (*api.Tu
 				if err != nil {
 					return nil, err
 				}
+				// The Weight sub-TLV of a segment list is optional.
+				var weight *api.SRWeight
+				if sv.Weight != nil {
+					weight = &api.SRWeight{
+						Flags:  uint32(sv.Weight.Flags),
+						Weight: sv.Weight.Weight,
+					}
+				}
 				subTlv.Tlv = &api.TunnelEncapTLV_TLV_SrSegmentList{
 					SrSegmentList: &api.TunnelEncapSubTLVSRSegmentList{
-						Weight: &api.SRWeight{
-							Flags:  uint32(sv.Weight.Flags),
-							Weight: sv.Weight.Weight,
-						},
+						Weight:   weight,
 						Segments: s,
 					},
 				}
